@@ -8,7 +8,7 @@ class P(StreamProperty):
     module = 'OpenFecVerif.Props.C05'
     theorems = ['C05_indep_global', 'C05_invalid_seed_keeps_state', 'C05_staircase', 'C05_rejects_large_N1']
     rule = ('every case creates an encoder and a decoder session with the same (k, r, N1, seed) after a random prefix of other sessions '
-            '(other parameters, other codecs) that leave the global PRNG in arbitrary states, and dumps both parity-check matrices; they are compared '
+            '(other parameters, other codecs, and near twins that differ from the target in exactly one of N1, seed, k, r) that leave the global PRNG and any other process-wide state in arbitrary states, and dumps both parity-check matrices; they are compared '
             'with the Lean transcription of RFC 5170 (correspondence) and with an independent Python transcription (oracle); grid k in {1..12,31,32,33,100,1000}, '
             'r in {3..12,50,500}, N1 in {3,4,5,7,r}, seeds {1,2,16807,2^31-2,random}; non-trivial = distinct (k,r,N1,seed); '
             'counters: cases where the uneven branch / the extra-entry branch fired')
@@ -44,9 +44,24 @@ class P(StreamProperty):
             return [('c05:enc-dec-differ', 'encoder and decoder sessions with equal parameters use different equations', mats[1][0])]
         return []
 
-    def prefix(self, rng):
-        """a few other sessions that disturb process-global state"""
+    def prefix(self, rng, target=None):
+        """a few other sessions that disturb process-global state; with a target configuration, also near twins of it (one of N1, seed, k, r
+        changed, the rest equal) created just before: anything remembered from a previous session under too coarse a key shows here"""
         b = []
+        if target is not None and rng.random() < (0.8 if target.k <= 100 else 0.15):
+            for t in range(rng.randint(1, 2) if target.k <= 33 else 1):
+                k, r, N1, sd = target.k, target.r, target.N1, target.seed
+                what = rng.choice(['N1', 'N1', 'seed', 'k', 'r'])
+                if what == 'N1':
+                    alts = [x for x in (3, 4, 5, 6, 7, r) if x <= r and x != N1]
+                    if not alts: what = 'seed'
+                    else: N1 = rng.choice(alts)
+                if what == 'seed': sd = sd % (2 ** 31 - 2) + 1
+                if what == 'k': k = k + rng.choice([1, 2])
+                if what == 'r': r = r + 1
+                cfg = gens.Cfg('ldpc', k, r, length=1, N1=N1, seed=sd)
+                sid = 5 + t
+                b += ['new %d 3 %d' % (sid, rng.choice([1, 2])), cfg.params_line(sid), 'release %d' % sid]
         for j in range(rng.randint(0, 3)):
             kind = rng.choice(['ldpc', 'ldpc', 'rs8', 'rs2m4'])
             if kind == 'ldpc':
@@ -76,10 +91,10 @@ class P(StreamProperty):
                     if N1 * k > 200000: continue
                     for sd in [seeds[i % 4], rng.randint(1, 2 ** 31 - 2)] if tier == 'quick' else seeds + [rng.randint(1, 2 ** 31 - 2) for _ in range(3)]:
                         cfg = gens.Cfg('ldpc', k, r, length=1, N1=N1, seed=sd)
-                        b = self.prefix(rng)
+                        b = self.prefix(rng, cfg)
                         # encoder session 8, decoder session 9 (odd N1: the decoder's matrix is untouched; even N1: compared through the model)
                         b += ['new 8 3 1', cfg.params_line(8), 'matrix 8', 'ctrl 8 lastnull', 'release 8']
-                        b += self.prefix(rng)
+                        b += self.prefix(rng, cfg)
                         b += ['new 9 3 2', cfg.params_line(9)]
                         if N1 % 2 == 1: b += ['matrix 9']
                         b += ['ctrl 9 lastnull', 'release 9']
